@@ -64,6 +64,8 @@ w("""Each of these was a check reporting a violation on code that satisfies the 
 * C20: statements affected by the C04 uniqueness finding were attributed to sidecars; they are now compared with the sidecar-off answer first.
 * C35: expected an error for statements over the empty table (no shard reaches the peer), for forced distribution after discovery had already dropped the dead peer, and for a peer whose files differ only in content (the splits digest covers layout, which is what C14 states); the fault peer now differs in row counts.
 * C36/C43: an explicit type refusal (DISTINCT on a vector column, bare NULL literal) is a refusal, not a wrong value.
+* C10 (thorough tier): twelve single-byte flips covered by the listed finding (payload corruption is undetectable without a checksum) were printed as new violations because the FINAL row count changed after the merge stage; the matcher now requires an unchanged row count only for concatenated answers, where the coordinator's row-count check pins it.
+* C11 / C19 (thorough tier): bounds that did not finish inside the time cap were cut (C11: length-3 inventories over a reduced kind set and 16 node counts; C19: depth-3 histories for same-actor reuse chains plus every 50th other) and the cut is stated in the evidence.
 * Stale harness binaries after reverting a seeded change produced spurious violations with `--no-build`; the procedure is now rebuild-after-revert.
 """)
 w("### 7.5 Detection demonstrated\n")
